@@ -34,7 +34,9 @@ for sid in sys.argv[1:]:
     mp = os.path.join(ROOT, "seeded", sid, "meta.json")
     m = json.load(open(mp))
     m["recheck"] = "after strengthening, VERIF_REPO=<patched worktree> ./check %s (quick, seed 1, %.0f s): %s" % (pid, time.time() - t0, res)
-    if caught and "MISSED" in m.get("check_result", ""):
+    if os.environ.get("REPLACE") == "1":
+        m["check_result"] = "VERIF_REPO=<patched worktree> ./check %s (quick, seed 1): %s" % (pid, res)
+    elif caught and "MISSED" in m.get("check_result", ""):
         m["check_result"] = m["check_result"].rstrip() + " — NOW: " + m["recheck"]
     json.dump(m, open(mp, "w"), indent=1)
     print(sid, res[:160])
